@@ -87,12 +87,14 @@ def run_trampoline(chk):
     lines = ["tramp %d %s" % c for c in cases]
     mout = vlib.model_run(lines)
     iout = vlib.run_impl_lines(exe, lines)
-    st = chk.cov.setdefault("k3_trampoline", {"cases": 0, "agree": 0, "max_size": 0, "deferred_cases": 0})
+    st = chk.cov.setdefault("k3_trampoline", {"cases": 0, "agree": 0, "max_size": 0, "cases_with_deferred_ops": 0})
     for (d, tree), line, mo, io in zip(cases, lines, mout, iout):
         st["cases"] += 1
         size = tree.count("(")
         st["max_size"] = max(st["max_size"], size)
-        deferred = ":1:1," in ("," + io + ",")[3:]      # something ran from drain()
+        # an operation other than the root ran at nesting 1: it was deferred and run from drain()
+        if any(e.split(":")[2] == "1" for e in io.split(" ")[0].split(",")[1:] if e.count(":") == 3):
+            st["cases_with_deferred_ops"] += 1
         nontrivial = size >= 3
         chk.count(line, nontrivial)
         why = tramp_monitor(d, tree, io)
@@ -116,7 +118,11 @@ def run(chk, replay=None):
         "extraction ExtrOcamlBasic only; ocaml/lockstep.ml, handlers/h_eventloop.ml, h_trampoline.ml, h_atomicqueue.ml, h_threadpool.ml, h_newthread.ml glue",
         "harness: verif_shim.hpp + dsched (serialises real threads: sequential consistency assumed; mutex/condvar/thread are the shim's), "
         "k1_event_loop.cpp, k1_atomic_queue.cpp, k1_thread_pool.cpp, k1_new_thread.cpp; k3_trampoline.cpp (plain build, no shim)",
-        "modelled not verified: inplace_stop_source internals (C03's model) — only the stop bit of each item's source is owned here"]
+        "modelled not verified: inplace_stop_source internals (C03's model) — only the stop bit of each item's source is owned here",
+        "modelling choices: one thread runs manual_event_loop::run(); compare_exchange_weak has no spurious failures (the shim maps it to strong); "
+        "new_thread_context: the std::thread constructor is folded into the fetch_add that follows it and 'thread exited' is the derived "
+        "notion 'this and all earlier retirees are past retire_thread's unlock' (the join chain); static_thread_pool: progress (no deadlock) is "
+        "not proved, only explored; enqueue after request_stop()/stop() is a documented non-guarantee (items may stay queued)"]
     chk.cov["rule"] = ("K1: all schedules of each program with <= bound preemptions plus seeded random ones; "
                        "distinct = distinct projected traces; non-trivial = at least two context switches among owned events. "
                        "K3 (trampoline): cases = (depth, tree); non-trivial = tree with >= 3 operations; distinct by input line")
